@@ -355,7 +355,7 @@ def pd_seq(prog: Program) -> RuleResult:
     return r
 
 
-def _path_with_container_skipping(cfg: CFG, f: FuncInfo, loop_header: int):
+def _path_with_container_skipping(cfg: CFG, f: FuncInfo, loop_header: int, identity_exempt: bool = False):
     """A path entry -> exit of the setter that handles a live monitored container yet avoids the re-populating loop.
     Edges that establish "the backing value is not a monitored container" (false edge of isinstance(x, MonitoredContainer),
     true edge of its negation, x not reassigned afterwards) or "the assigned value is the descriptor itself" are removed."""
@@ -383,6 +383,10 @@ def _path_with_container_skipping(cfg: CFG, f: FuncInfo, loop_header: int):
                 cut.add((t.id, not pol))
             elif tt.args[0].id == vparam and ty.endswith("PropertyDescriptor"):
                 cut.add((t.id, pol))
+        # "the assigned value is the container the field holds already" (x.f = x.f): nothing new is assigned on that edge
+        if identity_exempt and isinstance(tt, ast.Compare) and len(tt.ops) == 1 and isinstance(tt.ops[0], (ast.Is, ast.IsNot)) and vparam in (src(tt.left), src(tt.comparators[0])) \
+                and not isinstance(tt.comparators[0], ast.Constant):
+            cut.add((t.id, pol if isinstance(tt.ops[0], ast.Is) else not pol))
     prev = {cfg.entry: None}
     stack = [cfg.entry]
     while stack:
@@ -413,6 +417,7 @@ def pd_aug(prog: Program, alias_ok: bool) -> RuleResult:
     f = _set_fn(prog)
     # does the setter re-populate the container through the hook?
     repop = False
+    records_assigned = False
     skip_path = None
     cfg = CFG(f.node)
     for loop in [n for n in walk_local(f.node) if isinstance(n, ast.For)]:
@@ -428,6 +433,12 @@ def pd_aug(prog: Program, alias_ok: bool) -> RuleResult:
                     repop = True
                 else:
                     skip_path = cfg.describe(p)
+                if _path_with_container_skipping(cfg, f, h, identity_exempt=True) is None:
+                    records_assigned = True
+    # assignment of a new collection: whatever the in-place operators do, the elements of an assigned collection are added through the hook
+    # on every path that handles a monitored container (a path on which the assigned value *is* that container assigns nothing new)
+    r.check(records_assigned, "PropertyDescriptor.__set__#assigned-elements-recorded", site(f), "", "every element of an assigned collection is added through the recording hook",
+            "the setter stores the elements of an assigned collection without recording them (or skips them on some path): x.f = [a, b] leaves a and b in the field and unknown to the graph")
     for c in [c for c in prog.subclasses(mc.qual, strict=True) if _builtin_base(prog, c)]:
         kind = _builtin_base(prog, c)
         for op in INPLACE[kind]:
